@@ -229,4 +229,39 @@ Proof.
     apply B3. rewrite <- (K2 B2). exact A3.
   - rewrite A. apply cd_err_complete; [exact Hr|]. rewrite <- A. exact Hne.
 Qed.
+
+(* ---- a failed Start: no goroutine, nothing moves, the start error stays ---- *)
+Definition norun_inv (s : state) : Prop := running s = false -> c_cnt s = 0 /\ oq_closed s = false.
+
+Lemma norun_step : forall l s s' o, next_inv s -> norun_inv s -> step c l s = Some (s', o) -> norun_inv s'.
+Proof.
+  intros l s s' o (N1 & _ & _) HI H.
+  destruct l as [d|i d|d| |a]; [| | | |destruct a]; step_cases H; unfold norun_inv in *; cbn;
+    try exact HI; try (intros E; discriminate E);
+    try (unfold ensure_started; destruct (started s); [|destruct (is_err (c_hdr_err c))]; cbn; first [exact HI | intros E; discriminate E]).
+  all: intros Hr; exfalso.
+  all: try congruence.
+  all: destruct (N1 eq_refl) as [Hrun _]; congruence.
+Qed.
+
+Lemma reach_norun : forall s, reach c s -> norun_inv s.
+Proof.
+  intros s H. induction H as [|s l s' o Hr IH Hs]; [intros _; split; reflexivity|].
+  exact (norun_step l s s' o (reach_next c s Hr) IH Hs).
+Qed.
+
+(* after Start has failed, the recorded error is and stays the start error, whatever is called
+   afterwards (Close, cancel, further Scan/Header): "an error recorded earlier wins" *)
+Lemma start_error_wins : forall s, reach c s -> started s = true -> running s = false ->
+  s_err s = c_hdr_err c /\ is_err (s_err s) = true /\ all_done s = true.
+Proof.
+  intros s Hr Hst Hrun. destruct (reach_next c s Hr) as (_ & N2 & _).
+  pose proof (N2 Hst Hrun) as He. destruct (reach_kinv s Hr) as (K1 & _ & _ & _ & K5 & _).
+  destruct (reach_norun s Hr Hrun) as [Hc Hq].
+  assert (s_err s <> 0%Z) as Hne by (unfold is_err in He; apply negb_true_iff, Z.eqb_neq in He; exact He).
+  split; [|split; [exact He|unfold all_done; rewrite Hrun; reflexivity]].
+  destruct (K5 Hne) as [(_ & A)|[(_ & _ & _ & _ & A)|A]]; [exact A| |].
+  - rewrite Hq in A. discriminate A.
+  - exfalso. apply Hne. rewrite A. exact (K1 Hc).
+Qed.
 End Err.
